@@ -11,6 +11,8 @@ PROPERTY_PROFILES = {
     'C01': [('kernel', 1.0)],
     'C02': [('kernel', 1.0)],
     'C03': [('kernel', 1.0)],
+    'C04': [('kernel', 1.0)],
+    'C12': [('kernel', 1.0)],
 }
 
 
